@@ -35,20 +35,21 @@ func init() {
 		ID:        "C05",
 		Level:     "exploration",
 		Technique: "differential replicas of the real application over generated chains (proposer path vs cold / warm-cache / fast-sync / reopened-from-disk validators, GOMAXPROCS 1..16, repeated executions = map orders), byte comparison of everything processBlock returns; race lane C05R",
-		Rule: "case = one generated chain of 4-10 blocks on one genesis; every block is built by the proposer path of replica P (transactions through P's real mempool, Reap, CreateBlock, PreRunBlock) and then executed by: a cold validator (empty pool), a warm validator (every block tx admitted to its own pool first), a fast-sync replica, P itself, and 1-2 replicas reopened from a byte copy of the cold validator's databases, each under a GOMAXPROCS drawn from {1,2,4,16}; " +
-			"oracle: CheckBlock true everywhere, PreRunBlock does not panic, header StateHash/ReceiptHash/GasUsed == every replica's TxsResult, and receipts (status, error, gas, logs, contract address, bloom), logs, LogsBloom, UTXO outputs, key images, special txs, candidates, post-commit TrieRoot and returned validators are byte-identical across all executions; " +
-			"plus variant blocks (reordered / dropped / duplicated / foreign transactions, never committed): same verdict and same results on cold, warm and proposer replicas, and consistent with the proposer path's PreRunBlock. " +
+		Rule: "case = one generated chain of 4-10 blocks on one genesis (5-9 funded accounts, 2 tokens, 4 validators; mempool size / per-block confidential quota / MaxTxs drawn per chain); every block is built by the proposer path of replica P (0-40 transactions through P's real mempool in partly shuffled order with nonce gaps and held-back predecessors, Reap, CreateBlock, PreRunBlock) and then executed by: a cold validator (empty pool), a warm validator (every block tx admitted to its own pool first), a fast-sync replica, P itself, and 1-2 replicas reopened from a byte copy of the cold validator's databases with the process-wide WASM module cache emptied (= restarted process), each under a GOMAXPROCS drawn from {1,2,4,16}; " +
+			"transactions: plain and token transfers (to accounts, fresh, dead-contract and not-yet-created-contract addresses), EVM creations (8 purpose-built contracts; failing and low-gas constructors) and calls (storage, logs, revert, out-of-gas, self-destruct, value forwarding, multi-account touch, CREATE), WASM creation and calls (token contract of /repo/test/token, system contracts), account->confidential, confidential->confidential (ring 1 and 3-7, sub-addresses, change), confidential->account (+change), multi-signature transactions signed by the validators and contract-upgrade transactions signed by the registered signers; 30% of the chains are 'hostile': they let the committed state move under already pooled transactions (calls queued behind a nonce gap to a contract somebody destroys, confidential payouts to an address that becomes a contract, upgrades signed under a signer set that is replaced, upgrades that change a system contract's behaviour, never-committed blocks carrying upgrades); " +
+			"oracle: PreRunBlock does not panic, CheckBlock true on every replica, header StateHash/ReceiptHash/GasUsed == every replica's TxsResult, and receipts (status, error, gas, logs with all fields, contract address, bloom), logs, LogsBloom, UTXO outputs, key images, special txs, candidates, post-commit TrieRoot / candidates / returned validators are byte-identical across all executions; " +
+			"plus variant blocks (reordered / dropped / duplicated / foreign transactions, appended upgrades; never committed): same verdict and same results on cold, warm and proposer replicas, and — unless all validators refuse it in the signature/basic pre-check that PreRunBlock legitimately skips — consistent with PreRunBlock of the same block. " +
 			"non-trivial = chain with >= 3 blocks of >= 5 transactions that executed at least one contract call, one failing transaction, one confidential transaction, every block executed >= 5 times; distinct by hash of the block hashes",
 		Assumptions: []string{
 			"the stand-in for libxcrypto (shim) is deterministic and is the same code in every replica; RingCT soundness is not what is compared",
-			"replicas share one process and are driven sequentially (process-global singletons of the repository); storage mode isTrie=false (flat kv) is not built by chainkit and is not covered",
-			"candidate list is empty in generated chains (VotePeriod 1321 > chain length), so the candidate/validator outputs are compared but constant",
+			"replicas share one process and are driven sequentially (process-global singletons of the repository: balance records, blacklist, metrics); a restarted process is modelled by reopening from copied database bytes and emptying vm.AppCache; storage mode isTrie=false (flat kv) is not built by chainkit and is not covered",
+			"candidate list is empty in generated chains (VotePeriod 1321 > chain length; registering candidates needs committee contract calls), so candidate/validator outputs are compared but constant; the only evidence in blocks is the fault-validator record the proposer adds",
 		},
 		Cases: func(tier string) int {
 			if tier == "thorough" {
-				return 640
+				return thoroughCases()
 			}
-			return 32
+			return quickCases()
 		},
 		Batch:            func(tier string) int { return 2 },
 		Run:              runChain,
@@ -60,8 +61,28 @@ func init() {
 	})
 }
 
+func quickCases() int    { return 32 }
+func thoroughCases() int { return 1600 }
+
+// floors: about half of the minimum measured over VERIF_SEED=1..5 on the unchanged tree (quick), scaled by
+// the number of cases for thorough.
 func floors(tier string) map[string]int64 {
-	m := map[string]int64{}
+	m := map[string]int64{
+		"blocks": 95, "chains_completed": 12, "hostile_chains": 3,
+		"executions": 500, "executions:cold": 90, "executions:warm": 90, "executions:fastsync": 90, "executions:proposer-self": 90, "executions:reopened": 130,
+		"executions:gomaxprocs1": 120, "executions:gomaxprocs16": 120,
+		"header_comparisons": 370, "result_comparisons": 400, "post_commit_comparisons": 280,
+		"variant_executions": 120, "variant_result_comparisons": 30, "variants_accepted": 15, "variants_rejected": 25,
+		"executed:transfer": 360, "executed:token": 120, "executed:create": 120, "executed:call": 200, "executed_failed": 180,
+		"executed:a2u": 140, "executed:u2u": 75, "executed:u2a": 34, "executed:mst": 28, "executed:cut": 25,
+		"executed_with_logs": 28, "blocks_with_2plus_logging_txs": 6, "contracts_destroyed": 1,
+		"warm_pool_admitted": 1200, "held_back": 130,
+	}
+	if tier == "thorough" {
+		for k, v := range m {
+			m[k] = v * int64(thoroughCases()) / int64(quickCases()) * 8 / 10
+		}
+	}
 	return m
 }
 
